@@ -483,6 +483,19 @@ class Inliner:
                     setattr(x, fld, go(val, conditional))
                 elif isinstance(val, list):
                     setattr(x, fld, [go(v, conditional) if isinstance(v, ast.AST) else v for v in val])
+            if isinstance(x, ast.Call) and not conditional and isinstance(x.func, ast.Attribute) and x.func.attr == "join" \
+                    and isinstance(x.func.value, (ast.Constant, ast.Name)) and len(x.args) == 1 and not x.keywords and isinstance(x.args[0], ast.Call):
+                # sep.join(gen(...)): join drains the generator completely before it builds the string
+                g = self._callee(cx.scope, x.args[0], stack, generator=True)
+                if g is not None:
+                    self.counter += 1
+                    acc = f"__r{self.counter}"
+                    try:
+                        pre.extend(self._expand(cx.scope, g, x.args[0], None, stack, depth, collect=acc))
+                    except _NoInline:
+                        return x
+                    x.args = [ast.copy_location(ast.Name(id=acc, ctx=ast.Load()), x.args[0])]
+                    return x
             if isinstance(x, ast.Call) and not conditional and isinstance(x.func, ast.Name) and x.func.id in ("list", "tuple") \
                     and len(x.args) == 1 and not x.keywords and isinstance(x.args[0], ast.Call):
                 g = self._callee(cx.scope, x.args[0], stack, generator=True)
@@ -676,6 +689,97 @@ class _ArgLoopUnroller(ast.NodeTransformer):
             return node
         self.count += 1
         return out
+
+
+def _first_rest_zip_idiom(fn) -> int:
+    """for seg, ind in zip(xs, chain([a], repeat(b))): BODY      ->   for __zk, seg in enumerate(xs): ind = a if __zk == 0 else b; BODY
+    for i, (seg, ind) in enumerate(zip(xs, chain([a], repeat(b)))):  ->   for i, seg in enumerate(xs): ind = a if i == 0 else b; BODY
+    The second zip operand never runs out, so the loop ranges over xs; `a`, `b` are names / constants that the function binds at
+    most once (parameters, closure variables), so reading them per trip gives what the literal list held. The chain may be
+    bound to a local first (`indents = chain(...)`) if that local is used for nothing else."""
+    count = 0
+
+    def name_of(f: ast.AST) -> str:
+        return f.id if isinstance(f, ast.Name) else (f.attr if isinstance(f, ast.Attribute) else "")
+
+    def own_nodes():
+        stack = list(fn.body)
+        while stack:
+            x = stack.pop()
+            yield x
+            for ch in ast.iter_child_nodes(x):
+                if isinstance(ch, (ast.FunctionDef, ast.AsyncFunctionDef, ast.Lambda, ast.ClassDef)):
+                    continue
+                stack.append(ch)
+
+    stores: dict[str, int] = {}
+    for x in own_nodes():
+        if isinstance(x, ast.Name) and isinstance(x.ctx, (ast.Store, ast.Del)):
+            stores[x.id] = stores.get(x.id, 0) + 1
+
+    def simple(e: ast.AST) -> bool:
+        return isinstance(e, ast.Constant) or (isinstance(e, ast.Name) and stores.get(e.id, 0) <= 1)
+
+    def first_rest(e: ast.AST):
+        """(a, b) if e is chain([a], repeat(b))"""
+        if isinstance(e, ast.Call) and name_of(e.func) == "chain" and len(e.args) == 2 and not e.keywords:
+            l, r = e.args
+            if isinstance(l, (ast.List, ast.Tuple)) and len(l.elts) == 1 and isinstance(r, ast.Call) and name_of(r.func) == "repeat" \
+                    and len(r.args) == 1 and not r.keywords and simple(l.elts[0]) and simple(r.args[0]):
+                return l.elts[0], r.args[0]
+        return None
+
+    # locals bound once to such a chain and read once
+    chain_locals: dict[str, tuple] = {}
+    for x in own_nodes():
+        if isinstance(x, ast.Assign) and len(x.targets) == 1 and isinstance(x.targets[0], ast.Name) and stores.get(x.targets[0].id) == 1:
+            fr = first_rest(x.value)
+            nm = x.targets[0].id
+            if fr is not None and sum(1 for y in ast.walk(fn) if isinstance(y, ast.Name) and y.id == nm and isinstance(y.ctx, ast.Load)) == 1:
+                chain_locals[nm] = (fr, x)
+    used_locals: list[ast.stmt] = []
+
+    def rewrite(loop: ast.For) -> bool:
+        it = loop.iter
+        outer_i = None
+        tgt = loop.target
+        if isinstance(it, ast.Call) and name_of(it.func) == "enumerate" and len(it.args) == 1 and not it.keywords \
+                and isinstance(tgt, ast.Tuple) and len(tgt.elts) == 2 and isinstance(tgt.elts[0], ast.Name):
+            outer_i = tgt.elts[0].id
+            it, tgt = it.args[0], tgt.elts[1]
+        if not (isinstance(it, ast.Call) and name_of(it.func) == "zip" and len(it.args) == 2
+                and all(k.arg == "strict" and isinstance(k.value, ast.Constant) and k.value.value is False for k in it.keywords)):
+            return False
+        if not (isinstance(tgt, (ast.Tuple, ast.List)) and len(tgt.elts) == 2 and isinstance(tgt.elts[1], ast.Name)):
+            return False
+        xs, second = it.args
+        fr = first_rest(second)
+        if fr is None and isinstance(second, ast.Name) and second.id in chain_locals:
+            fr, assign = chain_locals[second.id]
+            used_locals.append(assign)
+        if fr is None:
+            return False
+        a, b = fr
+        idx = outer_i or f"__zk{getattr(loop, 'lineno', 0)}"
+        sel = ast.IfExp(test=ast.Compare(left=ast.Name(id=idx, ctx=ast.Load()), ops=[ast.Eq()], comparators=[ast.Constant(value=0)]),
+                        body=clone(a), orelse=clone(b))
+        first_stmt = ast.copy_location(ast.Assign(targets=[ast.Name(id=tgt.elts[1].id, ctx=ast.Store())], value=sel), loop)
+        loop.target = ast.Tuple(elts=[ast.Name(id=idx, ctx=ast.Store()), tgt.elts[0]], ctx=ast.Store())
+        loop.iter = ast.copy_location(ast.Call(func=ast.Name(id="enumerate", ctx=ast.Load()), args=[xs], keywords=[]), loop.iter)
+        loop.body = [first_stmt] + loop.body
+        return True
+
+    for x in list(own_nodes()):
+        if isinstance(x, ast.For) and not x.orelse and rewrite(x):
+            count += 1
+    if used_locals:
+        class _Drop(ast.NodeTransformer):
+            def visit_Assign(self, node):
+                return None if any(node is u for u in used_locals) else node
+        _Drop().visit(fn)
+    if count:
+        ast.fix_missing_locations(fn)
+    return count
 
 
 def _expand_dict_kwargs(fn) -> int:
@@ -1034,6 +1138,213 @@ def _propagate_copies(fn) -> int:
     return n_done
 
 
+def _blocks_of(fn):
+    """every statement list of the function's own scope (not of nested defs)"""
+    out = []
+    stack = [fn]
+    while stack:
+        x = stack.pop()
+        for fld in ("body", "orelse", "finalbody"):
+            lst = getattr(x, fld, None)
+            if isinstance(lst, list) and lst and isinstance(lst[0], ast.stmt):
+                out.append(lst)
+                for st in lst:
+                    if not isinstance(st, (ast.FunctionDef, ast.AsyncFunctionDef, ast.ClassDef)):
+                        stack.append(st)
+        for h in getattr(x, "handlers", []) or []:
+            stack.append(h)
+        for c in getattr(x, "cases", []) or []:
+            stack.append(c)
+    return out
+
+
+def _held_back_to_tail(fn) -> int:
+    """acc = []; last = None
+       ... if last is not None: acc.append(last)
+           last = e                       ->   acc.append(e)
+       ... last / last is not None / last += x   ->   acc[-1] / len(acc) > 0 / acc[-1] += x
+       if last is not None: acc.append(last)     ->   (gone)
+    The "hold back the newest element, emit it when the next one arrives, flush at the end" idiom of generator pipelines is
+    the same computation as appending at once and editing the tail: at every point acc' == acc + [last] (without the last
+    when it is None). Applied only when every append to `acc` is one of these guarded flushes, `acc` is not read before
+    the final flush, `last` is bound nowhere else, and the values held are elements of a loop (never None themselves)."""
+    if isinstance(fn, ast.Lambda):
+        return 0
+    own = list(walk_no_nested(fn))
+    blocks = _blocks_of(fn)
+    done = 0
+
+    def is_none_test(t: ast.AST, v: str, op) -> bool:
+        return isinstance(t, ast.Compare) and isinstance(t.left, ast.Name) and t.left.id == v and len(t.ops) == 1 and isinstance(t.ops[0], op) \
+            and isinstance(t.comparators[0], ast.Constant) and t.comparators[0].value is None
+
+    def flush_of(st: ast.stmt):
+        """(acc, v) if st is `if v is not None: acc.append(v)`"""
+        if isinstance(st, ast.If) and not st.orelse and len(st.body) == 1 and isinstance(st.body[0], ast.Expr) and isinstance(st.test, ast.Compare) \
+                and isinstance(st.test.left, ast.Name) and is_none_test(st.test, st.test.left.id, ast.IsNot):
+            c = st.body[0].value
+            v = st.test.left.id
+            if isinstance(c, ast.Call) and isinstance(c.func, ast.Attribute) and c.func.attr == "append" and isinstance(c.func.value, ast.Name) \
+                    and len(c.args) == 1 and not c.keywords and isinstance(c.args[0], ast.Name) and c.args[0].id == v:
+                return c.func.value.id, v
+        return None
+
+    flushes = [(lst, i, flush_of(st)) for lst in blocks for i, st in enumerate(lst) if flush_of(st)]
+    for acc, v in sorted({f[2] for f in flushes}):
+        mine = [(lst, i) for lst, i, f in flushes if f == (acc, v)]
+        steps, finals = [], []
+        for lst, i in mine:
+            nxt = lst[i + 1] if i + 1 < len(lst) else None
+            if isinstance(nxt, ast.Assign) and len(nxt.targets) == 1 and isinstance(nxt.targets[0], ast.Name) and nxt.targets[0].id == v \
+                    and isinstance(nxt.value, ast.Name) and nxt.value.id not in (v, acc):
+                steps.append((lst, i))
+            else:
+                finals.append((lst, i))
+        if len(finals) != 1 or not steps or finals[0][0] is not fn.body:
+            continue
+        flst, fi_ = finals[0]
+        # acc = [] and last = None, once each, at the top level of the function before the final flush
+        acc_init = [st for st in fn.body[:fi_] if isinstance(st, ast.Assign) and len(st.targets) == 1 and isinstance(st.targets[0], ast.Name)
+                    and st.targets[0].id == acc and isinstance(st.value, ast.List) and not st.value.elts]
+        v_init = [st for st in fn.body[:fi_] if isinstance(st, ast.Assign) and len(st.targets) == 1 and isinstance(st.targets[0], ast.Name)
+                  and st.targets[0].id == v and isinstance(st.value, ast.Constant) and st.value.value is None]
+        if len(acc_init) != 1 or len(v_init) != 1:
+            continue
+        step_assigns = {id(lst[i + 1]) for lst, i in steps}
+        step_ifs = {id(lst[i]) for lst, i in mine}
+        # values held: loop variables only
+        loop_vars = {t.id for x in own if isinstance(x, ast.For) for t in ast.walk(x.target) if isinstance(t, ast.Name)}
+        if not all(lst[i + 1].value.id in loop_vars for lst, i in steps):
+            continue
+        ok = True
+        final_line = getattr(flst[fi_], "end_lineno", None) or getattr(flst[fi_], "lineno", 0)
+        for x in own:
+            if isinstance(x, ast.Name) and x.id == acc:
+                par = parent_of(fn, x)
+                inside_flush = any(id(a) in step_ifs for a in ancestors_of(fn, x))
+                if inside_flush or (isinstance(par, ast.Assign) and par in acc_init):
+                    continue
+                if getattr(x, "lineno", 0) <= final_line:
+                    ok = False  # read or changed before the final flush: it would see one element more
+            if isinstance(x, ast.Name) and x.id == v and isinstance(x.ctx, ast.Store):
+                par = parent_of(fn, x)
+                if isinstance(par, ast.Assign) and (id(par) in step_assigns or par in v_init):
+                    continue
+                if isinstance(par, ast.AugAssign) and par.target is x:
+                    continue
+                ok = False
+            if isinstance(x, ast.Name) and x.id == v and isinstance(x.ctx, ast.Load) and getattr(x, "lineno", 0) > final_line:
+                ok = False
+        if any(isinstance(x, (ast.FunctionDef, ast.AsyncFunctionDef, ast.Lambda)) and any(isinstance(y, ast.Name) and y.id in (acc, v) for y in ast.walk(x))
+               for x in ast.walk(fn) if x is not fn and x not in (acc_init + v_init)):
+            # a nested function that mentions them (the spliced generator's own definition is dead code: it has its own names)
+            ok = False
+        if not ok:
+            continue
+
+        def tail() -> ast.expr:
+            return ast.Subscript(value=ast.Name(id=acc, ctx=ast.Load()), slice=ast.UnaryOp(op=ast.USub(), operand=ast.Constant(value=1)), ctx=ast.Load())
+
+        class _Rw(ast.NodeTransformer):
+            def visit_FunctionDef(self, node):
+                return node if node is not fn else self.generic_visit(node)
+            visit_AsyncFunctionDef = visit_FunctionDef
+
+            def visit_Lambda(self, node):
+                return node
+
+            def visit_Compare(self, node):
+                if is_none_test(node, v, ast.IsNot):
+                    return ast.copy_location(ast.Compare(left=ast.Call(func=ast.Name(id="len", ctx=ast.Load()), args=[ast.Name(id=acc, ctx=ast.Load())], keywords=[]),
+                                                         ops=[ast.Gt()], comparators=[ast.Constant(value=0)]), node)
+                if is_none_test(node, v, ast.Is):
+                    return ast.copy_location(ast.Compare(left=ast.Call(func=ast.Name(id="len", ctx=ast.Load()), args=[ast.Name(id=acc, ctx=ast.Load())], keywords=[]),
+                                                         ops=[ast.Eq()], comparators=[ast.Constant(value=0)]), node)
+                return self.generic_visit(node)
+
+            def visit_Name(self, node):
+                if node.id == v:
+                    t = tail()
+                    t.ctx = type(node.ctx)()
+                    return ast.copy_location(t, node)
+                return node
+
+        # steps first (they are statements), then the expression-level rewrite
+        for lst, i in sorted(steps, key=lambda t: -t[1]):
+            e = lst[i + 1].value
+            app = ast.Expr(value=ast.Call(func=ast.Attribute(value=ast.Name(id=acc, ctx=ast.Load()), attr="append", ctx=ast.Load()), args=[e], keywords=[]))
+            lst[i:i + 2] = [ast.copy_location(app, lst[i + 1])]
+        flst[:] = [st for st in flst if st is not mine_final(flst, finals) and st not in v_init]
+        _Rw().visit(fn)
+        ast.fix_missing_locations(fn)
+        done += 1
+        break  # one idiom per function per call; the caller iterates
+    return done
+
+
+def mine_final(flst, finals):
+    lst, i = finals[0]
+    return lst[i] if i < len(lst) else None
+
+
+def parent_of(fn, node):
+    for x in ast.walk(fn):
+        for ch in ast.iter_child_nodes(x):
+            if ch is node:
+                return x
+    return None
+
+
+def ancestors_of(fn, node):
+    out = []
+    cur = node
+    while cur is not None and cur is not fn:
+        cur = parent_of(fn, cur)
+        if cur is not None:
+            out.append(cur)
+    return out
+
+
+def _append_loops_to_extend(fn) -> int:
+    """for x in xs: acc.append(x)   ->   acc.extend(xs)        (x is not read afterwards);
+    islice(xs, k, None) handed to extend / such a loop   ->   xs[k:]   (the same elements, in the same order)"""
+    if isinstance(fn, ast.Lambda):
+        return 0
+    n = 0
+    for lst in _blocks_of(fn):
+        for i, st in enumerate(list(lst)):
+            if isinstance(st, ast.For) and not st.orelse and isinstance(st.target, ast.Name) and len(st.body) == 1 and isinstance(st.body[0], ast.Expr):
+                c = st.body[0].value
+                if isinstance(c, ast.Call) and isinstance(c.func, ast.Attribute) and c.func.attr == "append" and isinstance(c.func.value, ast.Name) \
+                        and len(c.args) == 1 and not c.keywords and isinstance(c.args[0], ast.Name) and c.args[0].id == st.target.id \
+                        and isinstance(st.iter, ast.Name) and st.iter.id != c.func.value.id:
+                    tv = st.target.id
+                    later = [x for x in ast.walk(fn) if isinstance(x, ast.Name) and x.id == tv and isinstance(x.ctx, ast.Load) and x is not c.args[0]]
+                    if later:
+                        continue
+                    ext = ast.Expr(value=ast.Call(func=ast.Attribute(value=ast.Name(id=c.func.value.id, ctx=ast.Load()), attr="extend", ctx=ast.Load()),
+                                                  args=[st.iter], keywords=[]))
+                    lst[lst.index(st)] = ast.copy_location(ext, st)
+                    n += 1
+    if n:
+        # islice(xs, k, None) bound to a name that is only ever extended from
+        extended = {c.args[0].id for c in ast.walk(fn) if isinstance(c, ast.Call) and isinstance(c.func, ast.Attribute) and c.func.attr == "extend"
+                    and len(c.args) == 1 and isinstance(c.args[0], ast.Name)}
+        for x in walk_no_nested(fn):
+            if isinstance(x, ast.Assign) and len(x.targets) == 1 and isinstance(x.targets[0], ast.Name) and x.targets[0].id in extended:
+                v_ = x.value
+                nm = x.targets[0].id
+                uses = [y for y in ast.walk(fn) if isinstance(y, ast.Name) and y.id == nm and isinstance(y.ctx, ast.Load)]
+                only_extended = all(isinstance(parent_of(fn, y), ast.Call) and getattr(parent_of(fn, y).func, "attr", "") == "extend" for y in uses)
+                if only_extended and isinstance(v_, ast.Call) and isinstance(v_.func, (ast.Name, ast.Attribute)) \
+                        and (v_.func.id if isinstance(v_.func, ast.Name) else v_.func.attr) == "islice" and len(v_.args) == 3 and not v_.keywords \
+                        and isinstance(v_.args[0], ast.Name) and isinstance(v_.args[1], ast.Constant) and isinstance(v_.args[1].value, int) and v_.args[1].value >= 0 \
+                        and isinstance(v_.args[2], ast.Constant) and v_.args[2].value is None:
+                    x.value = ast.copy_location(ast.Subscript(value=v_.args[0], slice=ast.Slice(lower=v_.args[1], upper=None, step=None), ctx=ast.Load()), v_)
+        ast.fix_missing_locations(fn)
+    return n
+
+
 def _scalar_replace_records(repo: Repo, mod, fn) -> int:
     """fmt = _Opts(width=w, semantic=s) ... fmt.width ... fmt.semantic      ->   fmt__width = w; fmt__semantic = s ... fmt__width ...
     for a local that is bound once to a freshly built record of the package (dataclass / NamedTuple without custom
@@ -1145,6 +1456,7 @@ def build_inlined_repo(root=None, keep: set[str] | None = None) -> tuple[Repo, d
         al.visit(fi.node)
         unrolled += al.count
         unrolled += _expand_dict_kwargs(fi.node)
+        unrolled += _first_rest_zip_idiom(fi.node)
         pf = _PartialFolder(fi.node)
         if pf.partials:
             pf.visit(fi.node)
@@ -1176,6 +1488,10 @@ def build_inlined_repo(root=None, keep: set[str] | None = None) -> tuple[Repo, d
         # object from the FuncInfo of the nested function)
         for fn_node in [n for n in ast.walk(mod.tree) if isinstance(n, (ast.FunctionDef, ast.AsyncFunctionDef))]:
             try:
+                for _round in range(3):
+                    if not _held_back_to_tail(fn_node):
+                        break
+                _append_loops_to_extend(fn_node)
                 for _round in range(3):  # records inside records, copies of copies
                     _propagate_copies(fn_node)
                     got = _scalar_replace_records(work, mod, fn_node)
